@@ -10,6 +10,9 @@
 (*            items ("ok" / "err" per item it yielded), taken (messages it took *)
 (*            from the layer below), polls (times it asked that layer), ended   *)
 (*   request  the transfer request the client built, projected                  *)
+(*   e2e      the real client stack asked the real server: zone (as stored),    *)
+(*            server (rc, tc, an, len per message sent), items, ended,          *)
+(*            delivered (the answer records of the items handed over as good)   *)
 (* The monitor evaluates the operators of XferOps per event; it never looks at  *)
 (* how the implementation chunks or orders records.                             *)
 EXTENDS XferOps, TLC, Json, IOUtils
@@ -68,11 +71,34 @@ ClientReport ==
 (* ---- request ---- *)
 RequestReport == [case |-> e.case, line |-> l, kind |-> "request", event |-> e]
 
+(* ---- end to end ---- *)
+(* "never silently succeeds with a partial zone": whatever the real server sent, *)
+(* if the real client stack reports no error and ends its stream, what it        *)
+(* delivered is the whole zone between two copies of its SOA (or, for IXFR from  *)
+(* a client that is current, the single SOA).                                    *)
+EZone == ZoneOf(e.zone)
+Claimed == e.ended /\ "err" \notin Range(e.items)
+WholeDelivered ==
+    LET flat == e.delivered
+        n == Len(flat)
+    IN /\ n >= 2 /\ flat[1] = EZone.soa /\ flat[n] = EZone.soa
+       /\ EZone.rest \subseteq Range(flat)
+       /\ Range(flat) \subseteq ({EZone.soa} \cup EZone.rest \cup EZone.sigs)
+UpToDateDelivered == e.mode = "ixfr" /\ e.have \in {"same", "newer"} /\ e.delivered = <<EZone.soa>>
+E2EAllowed == e.obs = "ok" /\ (Claimed => (WholeDelivered \/ UpToDateDelivered))
+E2EReport ==
+    [case |-> e.case, line |-> l, kind |-> "e2e", mode |-> e.mode, have |-> e.have, policy |-> e.policy, store |-> e.store,
+     server |-> e.server, items |-> Len(e.items), ended |-> e.ended, obs |-> e.obs,
+     delivered |-> Len(e.delivered), zoneRecords |-> Cardinality(EZone.rest),
+     missing |-> Cardinality(EZone.rest \ Range(e.delivered))]
+
 Allowed == CASE e.ev = "server"  -> ServerAllowed
+             [] e.ev = "e2e"     -> E2EAllowed
              [] e.ev = "client"  -> ClientAllowed
              [] e.ev = "request" -> RequestOk(e)
              [] OTHER -> FALSE
 Report == CASE e.ev = "server"  -> ServerReport
+            [] e.ev = "e2e"     -> E2EReport
             [] e.ev = "client"  -> ClientReport
             [] e.ev = "request" -> RequestReport
             [] OTHER -> [case |-> e.case, line |-> l, kind |-> "harness", event |-> e]
